@@ -1375,6 +1375,10 @@ impl Function {
                 .extend(Cow::Owned(self.get_qualified_name()));
         }
 
+        #[cfg(mscript_verif)]
+        let verif_activation =
+            crate::verif::Activation::enter(&self.get_qualified_name(), &current_frame);
+
         // Each function needs its own context.
         let mut context = Ctx::new(self, current_frame.clone(), args, callback_state);
 
@@ -1387,6 +1391,9 @@ impl Function {
 
         while instruction_ptr < self.instructions.len() {
             let instruction = &self.instructions[instruction_ptr];
+
+            #[cfg(mscript_verif)]
+            verif_activation.instruction(instruction_ptr, instruction.id, context.stack_size());
 
             // queries the function pointer associated with the instruction,
             // and gives it ownership of the instruction.
@@ -1428,6 +1435,8 @@ impl Function {
             match ret {
                 InstructionExitState::ReturnValue(ret) => {
                     current_frame.borrow_mut().pop_until_function();
+                    #[cfg(mscript_verif)]
+                    verif_activation.exit_how("ret");
                     return Ok(ret.clone());
                 }
                 InstructionExitState::JumpRequest(jump_request) => {
@@ -1501,6 +1510,9 @@ impl Function {
         log::warn!("Warning: function concludes without `ret` instruction");
 
         current_frame.borrow_mut().pop();
+
+        #[cfg(mscript_verif)]
+        verif_activation.exit_how("fall");
 
         Ok(ReturnValue::NoValue)
     }
